@@ -98,15 +98,27 @@ def make_defaults(P, kind, desc, variant=0):
                            deprecated_reason=desc, deprecated_since=since),
              P.RuleDefault('svc:kept', 'role:k')]
     elif kind == 'renamed':
-        dep = P.DeprecatedRule('svc:old', 'role:old',
-                               deprecated_reason=desc or 'r',
-                               deprecated_since=since)
+        import warnings
+        with warnings.catch_warnings():
+            warnings.simplefilter('ignore')
+            # still accepted by the API (a DeprecationWarning only): a
+            # deprecated rule that gives no reason and no version
+            dep = P.DeprecatedRule('svc:old', 'role:old') \
+                if variant % 5 == 4 else \
+                P.DeprecatedRule('svc:old', 'role:old',
+                                 deprecated_reason=desc or 'r',
+                                 deprecated_since=since)
         d = [P.DocumentedRuleDefault('svc:new', cs, 'new policy', ops,
                                      deprecated_rule=dep)]
     elif kind == 'changed':
-        dep = P.DeprecatedRule('svc:chg', 'role:before',
-                               deprecated_reason=desc or 'r',
-                               deprecated_since=since)
+        import warnings
+        with warnings.catch_warnings():
+            warnings.simplefilter('ignore')
+            dep = P.DeprecatedRule('svc:chg', 'role:before') \
+                if variant % 5 == 4 else \
+                P.DeprecatedRule('svc:chg', 'role:before',
+                                 deprecated_reason=desc or 'r',
+                                 deprecated_since=since)
         d = [P.RuleDefault('svc:chg', cs, description=desc or None,
                            deprecated_rule=dep)]
     else:
